@@ -7,6 +7,7 @@ import (
 	"crypto/sha256"
 	"fmt"
 	"go/types"
+	"math/big"
 	"sort"
 	"strings"
 
@@ -867,11 +868,12 @@ func copySlice(v value) value {
 // Ackermannised uninterpreted functions
 
 type ufApp struct {
-	sig   string
-	terms []*Term
-	res   value
-	rsig  string
-	rts   []*Term
+	sig      string
+	terms    []*Term
+	res      value
+	rsig     string
+	rts      []*Term
+	concrete bool // all arguments (hence the result) are constants
 }
 
 // flatten reduces a value to a shape signature and a list of scalar terms.
@@ -972,11 +974,48 @@ func (in *interp) ufApply(name string, injective bool, args []value, mkRes func(
 		}
 	}
 	res := mkRes()
+	// all arguments concrete: the result is a concrete pseudo-random value (a digest of the function
+	// name and the arguments) instead of fresh variables tied to every other application by pairwise
+	// constraints — the same function, consistent by construction, and constant-foldable
+	allConst := true
+	for _, t := range terms {
+		if !t.IsConst() {
+			allConst = false
+			break
+		}
+	}
+	if allConst {
+		var seed strings.Builder
+		seed.WriteString(name + "|" + sig + "|")
+		for _, t := range terms {
+			fmt.Fprintf(&seed, "%x.", t.Big())
+		}
+		ctr := 0
+		var pool []byte
+		next := func(w int) *Term {
+			nb := (w + 7) / 8
+			for len(pool) < nb {
+				d := sha256.Sum256([]byte(fmt.Sprintf("%s#%d", seed.String(), ctr)))
+				ctr++
+				pool = append(pool, d[:]...)
+			}
+			v := new(big.Int).SetBytes(pool[:nb])
+			pool = pool[nb:]
+			if w%8 != 0 {
+				v.And(v, new(big.Int).Sub(new(big.Int).Lsh(big.NewInt(1), uint(w)), big.NewInt(1)))
+			}
+			return ts.BigBV(v, w)
+		}
+		res = in.constLike(res, next)
+	}
 	var rsb strings.Builder
 	var rts []*Term
 	in.flatten(res, &rsb, &rts, 0)
-	app := &ufApp{sig: sig, terms: terms, res: res, rsig: rsb.String(), rts: rts}
+	app := &ufApp{sig: sig, terms: terms, res: res, rsig: rsb.String(), rts: rts, concrete: allConst}
 	for _, p := range apps {
+		if allConst && p.concrete {
+			continue // two concrete applications: their digests already agree / differ as they must
+		}
 		reseq := ts.True
 		for i := range rts {
 			reseq = ts.And(reseq, ts.Eq(rts[i], p.rts[i]))
@@ -999,6 +1038,56 @@ func (in *interp) ufApply(name string, injective bool, args []value, mkRes func(
 	in.ufApps[name] = append(apps, app)
 	in.ufCount++
 	return res
+}
+
+// constLike rebuilds a (fresh, symbolic) result value with constants drawn from next
+func (in *interp) constLike(v value, next func(w int) *Term) value {
+	switch x := v.(type) {
+	case *Term:
+		if x.w == 0 { // Bool
+			return v
+		}
+		return next(x.w)
+	case symstr:
+		out := make(symstr, len(x))
+		for i := range x {
+			out[i] = next(8)
+		}
+		return out
+	case []value:
+		if x == nil {
+			return x
+		}
+		out := make([]value, len(x))
+		for i, e := range x {
+			out[i] = in.constLike(e, next)
+		}
+		return out
+	case structure:
+		out := make(structure, len(x))
+		for i, e := range x {
+			out[i] = in.constLike(e, next)
+		}
+		return out
+	case array:
+		out := make(array, len(x))
+		for i, e := range x {
+			out[i] = in.constLike(e, next)
+		}
+		return out
+	case tuple:
+		out := make(tuple, len(x))
+		for i, e := range x {
+			out[i] = in.constLike(e, next)
+		}
+		return out
+	case iface:
+		if x.t == nil {
+			return x
+		}
+		return iface{t: x.t, v: in.constLike(x.v, next)}
+	}
+	return v
 }
 
 func sameTerms(a, b []*Term) bool {
@@ -1100,6 +1189,11 @@ func (in *interp) runStub(fr *frame, fi *fnInfo, args []value) value {
 		parts = []string{"inj", parts[1]}
 	}
 	switch parts[0] {
+	case "clock":
+		// time.Now as a concrete, strictly increasing clock (for harnesses whose subject is not time:
+		// symbolic instants make every Duration computation a 64-bit multiplication the solvers choke on)
+		in.clock++
+		return structure{in.ts.BV(0, 64), in.ts.BV(uint64(1600000000+in.clock), 64), (*value)(nil)}
 	case "noop":
 		return mk(func(t types.Type, i int) value { return in.zero(t) })
 	case "opaque":
